@@ -160,9 +160,13 @@ cdef class LegacyRecordBatch:
             char* buf
         buf = <char*> self._buffer.buf
         while pos < buffer_len:
+            self._check_bounds(pos, LOG_OVERHEAD)
             length = <Py_ssize_t> hton.unpack_int32(&buf[pos + LENGTH_OFFSET])
+            if length < 0:
+                # would walk backwards (or never advance)
+                raise CorruptRecordException("Corrupted compressed message")
             pos += LOG_OVERHEAD + length
-        if pos > buffer_len:
+        if pos > buffer_len or pos == 0:
             raise CorruptRecordException("Corrupted compressed message")
         pos -= LOG_OVERHEAD + length
         return hton.unpack_int64(&buf[pos])
